@@ -7,8 +7,8 @@ import (
 	"fmt"
 	"os"
 	"path/filepath"
-	"sort"
 	"runtime/debug"
+	"sort"
 	"strings"
 	"testing"
 	"time"
@@ -278,6 +278,22 @@ func mustDoc(b []byte) *sbom.Document {
 }
 
 // c07Check runs the totality clause for one document in every registered format; returns canonical outputs.
+// canonOutput: JSON output up to member order, order inside arrays and creation timestamps; any other (text) encoding
+// line by line, creation-time lines left out.
+func canonOutput(out []byte) string {
+	if c, err := hx.CanonJSON(out, blankTimestamps); err == nil {
+		return c
+	}
+	var ls []string
+	for _, ln := range strings.Split(string(out), "\n") {
+		if !strings.HasPrefix(strings.TrimSpace(ln), "Created:") {
+			ls = append(ls, ln)
+		}
+	}
+	sort.Strings(ls)
+	return "text:" + strings.Join(ls, "\n")
+}
+
 func c07Totality(w *writer.Writer, wd wildDoc, ro *native.RenderOptions, shared *sbom.Document) (map[formats.Format]string, error) {
 	outs := map[formats.Format]string{}
 	for _, f := range registeredOutputFormats() {
@@ -297,19 +313,7 @@ func c07Totality(w *writer.Writer, wd wildDoc, ro *native.RenderOptions, shared 
 			return nil, fmt.Errorf("serializing to %s returned neither an error nor output", f)
 		}
 		if r.err == nil {
-			c, err := hx.CanonJSON(r.out, blankTimestamps)
-			if err != nil {
-				// not JSON (a text encoding): compared line by line, creation-time lines left out
-				var ls []string
-				for _, ln := range strings.Split(string(r.out), "\n") {
-					if !strings.HasPrefix(strings.TrimSpace(ln), "Created:") {
-						ls = append(ls, ln)
-					}
-				}
-				sort.Strings(ls)
-				c = strings.Join(ls, "\n")
-			}
-			outs[f] = c
+			outs[f] = canonOutput(r.out)
 		} else {
 			outs[f] = "ERROR"
 		}
@@ -357,9 +361,8 @@ func c07Property(t *rapid.T) {
 			if rerr != nil {
 				t.Fatalf("WriteFileWithOptions(%s) succeeded but the file cannot be read: %v", ff, rerr)
 			}
-			c, cerr := hx.CanonJSON(data, blankTimestamps)
-			if cerr != nil || c != a1[ff] {
-				t.Fatalf("WriteFileWithOptions(%s) wrote something else than WriteStreamWithOptions (err=%v):\n file  : %s\n stream: %s", ff, cerr, trunc(c, 1200), trunc(a1[ff], 1200))
+			if c := canonOutput(data); c != a1[ff] {
+				t.Fatalf("WriteFileWithOptions(%s) wrote something else than WriteStreamWithOptions:\n file  : %s\n stream: %s", ff, trunc(c, 1200), trunc(a1[ff], 1200))
 			}
 			hx.Class("written_to_file")
 		}
